@@ -243,10 +243,31 @@ func ruleInflCover(p *Prog, r *Report) {
 			}
 			nCast++
 		})
-		if nCast >= 3 {
+		// at least one attribute site and the text site; and no value taken from the document is stored without cast
+		raw := ""
+		eachInstr(fn, func(b *ssa.BasicBlock, in ssa.Instruction) {
+			mu, ok := in.(*ssa.MapUpdate)
+			if !ok {
+				return
+			}
+			mi, ok := mu.Value.(*ssa.MakeInterface)
+			if !ok || !isStringType(mi.X.Type()) {
+				return
+			}
+			// strings stored directly: allowed for comment/directive/procinst text and the empty element value
+			for v := range backwardSlice(fn, mi.X) {
+				if f, ok := v.(*ssa.FieldAddr); ok && fieldName(f.X.Type(), f.Field) == "Value" {
+					raw = p.Pos(mu.Pos()) // an attribute value stored without cast
+				}
+				if f, ok := v.(*ssa.Field); ok && fieldName(f.X.Type(), f.Field) == "Value" {
+					raw = p.Pos(mu.Pos())
+				}
+			}
+		})
+		if nCast >= 2 && raw == "" {
 			r.OK(rule, n, "attribute and text values pass through the cast function", p.Pos(fn.Pos()), fmt.Sprintf("%d sites", nCast))
 		} else {
-			r.Bad(rule, n, "attribute and text values pass through the cast function", p.Pos(fn.Pos()), fmt.Sprintf("only %d of the 3 value insertion sites store a cast() result", nCast))
+			r.Bad(rule, n, "attribute and text values pass through the cast function", p.Pos(fn.Pos()), fmt.Sprintf("%d value insertion sites store a cast() result (attribute and text sites expected); uncast attribute store at %q", nCast, raw))
 		}
 		// the key parameter of the recursive call depends on snakeCaseKeys
 		skeyInfl := false
